@@ -380,7 +380,10 @@ Qed.
 
 Lemma cat_total_nonneg args :
   Forall (fun wa => 0 <= fst wa /\ limbs_ok (fst wa) (snd wa)) args -> 0 <= cat_total args.
-Proof. induction 1 as [|wa args [Hw _] _ IH]; cbn; lia. Qed.
+Proof.
+  induction 1 as [|wa args [Hw _] _ IH]; [cbn; lia|].
+  cbn [cat_total fold_right]. fold (cat_total args). lia.
+Qed.
 
 (* >>> _build_concat computes the concatenation, for every argument list and limb count *)
 Theorem c_concat_correct (args : list (Z * list Z)) (wd : Z) :
